@@ -9,6 +9,28 @@ Theorem c19_tables :
 Proof. repeat split; reflexivity. Qed.
 Print Assumptions c19_tables.
 
+(* MappedWrite's three bodies as the translator reads them from the source, statement by statement
+   (translator/src/imp.rs -> GenStream.gen_mw_flush / gen_mw_byte / gen_mw_drop), ARE the model's
+   state machine: one loop iteration of `write` is mw_byte, drop (and unwrap's flush) is mw_finish
+   with the empty-remainder rule.  The inner writer is `Some out` throughout (it is None only
+   after unwrap consumed the value). *)
+Theorem c19_mapped_regenerated :
+  mapped_write_frame_ok = true /\
+  (forall f mk buf out x,
+      gen_mw_byte f buf (Some out) mk x =
+      let s := mw_byte f mk (mkMW buf out) x in (mw_buf s, Some (mw_out s))) /\
+  (forall f buf out,
+      snd (gen_mw_drop f buf (Some out)) = Some (mw_finish f true (mkMW buf out))).
+Proof.
+  split; [reflexivity|]. split.
+  - intros f mk buf out x. unfold gen_mw_byte, gen_mw_flush, mw_byte. cbn [mw_buf mw_out].
+    destruct (N.eqb x mk); [|reflexivity].
+    destruct (buf ++ [x]) as [|c r] eqn:E; [destruct buf; discriminate|]. reflexivity.
+  - intros f buf out. unfold gen_mw_drop, gen_mw_flush, mw_finish. cbn [mw_buf mw_out andb].
+    destruct buf; reflexivity.
+Qed.
+Print Assumptions c19_mapped_regenerated.
+
 (* for every mapping function, marker, input and every way of splitting the input into writes *)
 Theorem c19_mapped_chunking :
   forall f m chunks, mw_run f m mapped_skips_empty_remainder chunks = mapped_spec f m (concat chunks).
